@@ -33,11 +33,16 @@ BytesMism(e) ==
   \cup (IF e.re # Enc(e.type, d) THEN {"reencode:" \o e.type} ELSE {})
   \cup (IF e.again # 1 THEN {"reencode.not_stable:" \o e.type} ELSE {})
 
+\* any byte string through both decoders: what a decoder accepts re-encodes to bytes every decoder accepts and decodes to the same value
+AnyMism(e) ==
+  (IF e.slice[1] = 1 /\ e.slice[2] # 1 THEN {"decode.reencode_not_stable:from_slice:" \o e.type} ELSE {})
+  \cup (IF e.read[1] = 1 /\ e.read[2] # 1 THEN {"decode.reencode_not_stable:read:" \o e.type} ELSE {})
+
 VARIABLES l, bad
 TraceInit == l = 1 /\ bad = {}
 TraceNext == /\ l <= Len(Rec)
              /\ LET e == Rec[l]
-                    ms == CASE e.ev = "wire" -> ValueMism(e) [] e.ev = "wire_bytes" -> BytesMism(e) [] OTHER -> {"panic:" \o e.type}
+                    ms == CASE e.ev = "wire" -> ValueMism(e) [] e.ev = "wire_bytes" -> BytesMism(e) [] e.ev = "wire_any" -> AnyMism(e) [] OTHER -> {"panic:" \o e.type}
                 IN bad' = bad \cup {<<e.id, t>> : t \in ms}
              /\ l' = l + 1
 TraceSpec == TraceInit /\ [][TraceNext]_<<l, bad>>
